@@ -124,6 +124,8 @@ def value_grid(rnd=None, extra=0):
     add(decimal.Decimal("100"), "Decimal")
     add(fractions.Fraction(1, 3), "Fraction")
     add(fractions.Fraction(300, 1), "Fraction")
+    add(10 ** 400, "int-beyond-float")  # an int no float can hold: refused like any other unrepresentable number
+    add(-(10 ** 400), "int-beyond-float")
     for v in (0, 1, 100, 256, 300, 1000, 400000, 2 ** 31):
         add(IntLike(v), "IntLike")
     add([1], "list")
@@ -165,7 +167,7 @@ def plan(tier, seed):
     n = 16
     return (
         [{"kind": "attrs", "shard": i, "of": n, "extra": 0 if tier == "quick" else 2000} for i in range(n)]
-        + [{"kind": "enums"}, {"kind": "suite"}]
+        + [{"kind": "enums"}, {"kind": "suite"}, {"kind": "defaults"}]
         + [{"kind": "api_lexical", "shard": i, "of": 4, "per_row": 2 if tier == "quick" else 12} for i in range(4)]
         + [{"kind": "corpus_lexical", "shard": i, "of": 8, "orders": 1 if tier == "quick" else 4} for i in range(8)]
         + [{"kind": "corpus", "shard": i, "of": 4} for i in range(4)]
@@ -265,6 +267,8 @@ def close(stname, wrote, got):
         return got == wrote
     if isinstance(wrote, bool) and isinstance(got, bool):
         return got == wrote
+    if isinstance(wrote, int) and not isinstance(wrote, bool) and abs(wrote) > 2 ** 53 and QUANTUM.get(stname, ("", 0))[0] == "mod360":
+        wrote = wrote % 360  # exact: an int of any size is a whole number of degrees
     try:
         w, g = float(wrote), float(got)
     except Exception:
@@ -571,6 +575,8 @@ def run_unit(unit, tier, seed, acc):
         return suite.run_suite_unit(ID, acc)
     if unit["kind"] == "enums":
         return run_enums(acc)
+    if unit["kind"] == "defaults":
+        return run_defaults(acc)
     if unit["kind"] == "corpus":
         return run_corpus(unit, acc)
     if unit["kind"] == "api_lexical":
@@ -853,6 +859,52 @@ def run_corpus_lexical(unit, seed, acc):
             else:
                 if len(a) != len(b):
                     acc.violation("api-reader-lexical-variant:traversal-length", "%s: %d readings on the deck as it is, %d with zero-padded numbers" % (label, len(a), len(b)), {"corpus_lexical": os.path.relpath(path, env.REPO), "order": o, "seed": seed})
+
+
+# Defaults the schema leaves to the prose of ECMA-376-1 (21.1.2.1.1 bodyPr: "If this attribute is omitted, a value of 91440 /
+# 45720 ... is implied"; PowerPoint's own masters spell exactly these out, see docs/dev/analysis/placeholders/master-placeholders.rst)
+PROSE_DEFAULTS = {("a:bodyPr", "lIns"): "91440", ("a:bodyPr", "tIns"): "45720", ("a:bodyPr", "rIns"): "91440", ("a:bodyPr", "bIns"): "45720"}
+
+
+def run_defaults(acc):
+    """'Reading the written form returns the value written' includes the form NOT written: a setter given the value a class
+    declares as the attribute's default removes the attribute, and any other reader then takes the SCHEMA's default.  Where
+    the schema (or, for the four text insets, the standard's prose) states a default and the class declares one, they must be
+    one value - read through the class's own from_xml."""
+    from vlib import introspect, xsdkit
+
+    m = xsdkit.model()
+    for T, cls in sorted(introspect.registrations().items()):
+        for d in introspect.attr_decls(cls):
+            if d["required"] or d["default"] is None:
+                continue
+            sds = set()
+            for tau in sorted({t for t in m.elem_decls.get(T, {}).values() if t and m.is_complex(t)}):
+                a = m.attributes(tau).get(d["clark"])
+                if a is not None:
+                    sds.add(a[2])
+            prose = PROSE_DEFAULTS.get((xsdkit.pfx_tag(T), d["attr"]))
+            if prose is not None and sds <= {None}:
+                sds = {prose}
+                acc.count("defaults_from_the_standards_prose")
+            sds.discard(None)
+            if len(sds) != 1:
+                acc.count("declared_defaults_the_schema_says_nothing_about" if not sds else "declared_defaults_with_several_schema_defaults")
+                continue
+            sd = sds.pop()
+            st, dv = d["simple_type"], d["default"]
+            ident = "%s/@%s" % (xsdkit.pfx_tag(T), d["attr"])
+            acc.count("declared_defaults_compared_with_the_schema")
+            acc.hit("default:" + st.__name__)
+            acc.case(desc={"attr": ident, "schema_default": sd}, nontrivial=True, cls="default")
+            try:
+                want = st.from_xml(sd)
+            except Exception as e:  # noqa
+                acc.violation("schema-default-unreadable:%s" % ident, "%s: the schema default %r cannot be read: %r" % (ident, sd, e), {"T": T, "prop": d["prop"], "default": sd})
+                continue
+            same = want == dv if hasattr(st, "__members__") or isinstance(dv, (str, bool)) else close(st.__name__, dv, want)
+            if not same:
+                acc.violation("declared-default-differs-from-schema:%s" % ident, "%s: the class declares default %r, the schema %r (= %r): a value the setter drops as 'default' means something else to every other reader" % (ident, dv, sd, want), {"T": T, "prop": d["prop"], "default": sd})
 
 
 def run_corpus(unit, acc):
